@@ -369,3 +369,4 @@ def state : State := Interp.init mem
 end Ex
 
 end Rbpf
+
